@@ -145,6 +145,20 @@ func genC08(r *Rng, tier string, emit func(Case)) {
 	e("hist", "empty-filter", "-", "1", "0", "0", "m:00;a:00;m:00;p:"+strings.Repeat("00", 32)+":0")
 	e("json", "hetero-array", hs(`{"a":["00",1]}`))
 	e("json", "hetero-array2", hs(`{"block":{"info":{"hash":["00",{"x":null},[1]]}}}`))
+	// strings of exactly / around the length of a hex hash (64 characters), hexadecimal or not, as a map value, as the
+	// first, a later and the only element of an array of strings, at two nesting depths
+	for _, l := range []int{62, 63, 64, 65, 66, 128} {
+		for _, alpha := range []string{"0123456789abcdef", "g", "0123456789abcdefg", "Z -"} {
+			b := make([]byte, l)
+			for i := range b {
+				b[i] = alpha[(i*7+l)%len(alpha)]
+			}
+			v := `"` + string(b) + `"`
+			for _, shape := range []string{`{"a":%s}`, `{"a":[%s]}`, `{"a":["00",%s]}`, `{"a":[%s,"00"]}`, `{"block":{"hash":["00","11",%s]}}`, `[%s]`, `["00",%s]`} {
+				e("json", "hashlen", hs(strings.Replace(shape, "%s", v, 1)))
+			}
+		}
+	}
 	e("scantime", "chain", "12", "22")
 	e("gcsraw", "hugeN", strings.Repeat("00", 16), "19", "784931", "-", "feffffffff00", "00;seq:3:1")
 	// ---- the address constructors take externally supplied hashes, scripts and serialized keys (a key pushed by a
